@@ -24,10 +24,12 @@ func init() {
 			"reference predicate chain.CommandsOK over ref.CmdCovers",
 			"principals, policies and time bounds are kept conforming so that a verdict is attributable to the command rule",
 		},
-		Shards:      shards(8, 16),
-		Run:         runC02,
-		MinEvals:    floor(22000, 250000),
-		MinDistinct: floor(20000, 240000),
+		Shards:          shards(8, 16),
+		RaceShards:      shards(1, 2),
+		RaceIsViolation: true,
+		Run:             runC02,
+		MinEvals:        floor(22000, 250000),
+		MinDistinct:     floor(20000, 240000),
 		RequiredCells: func(string) []string {
 			var cells []string
 			for _, pos := range []string{"inv", "middle", "root"} {
@@ -35,7 +37,7 @@ func init() {
 					cells = append(cells, "pair/"+pos+"/"+rel)
 				}
 			}
-			return append(cells, "allowed", "denied", "wire", "hook", "long-chain", "scale", "shared-lower-links")
+			return append(cells, "purity/chain-verdicts/history", "purity/chain-verdicts/concurrent", "purity/chain-verdicts/concurrent-focused", "chain-purity/ExecutionAllowed/same-proofs-command-parent/model=deny", "chain-purity/ExecutionAllowed/same-proofs-command-sibling/model=deny", "chain-purity/ExecutionAllowed/same-proofs-command-child/model=allow", "allowed", "denied", "wire", "hook", "long-chain", "scale", "shared-lower-links")
 		},
 	})
 }
@@ -129,6 +131,9 @@ func c02RunR(w *mon.W, cmds []string, wire int, hook bool, reuse *chain.Built, r
 }
 
 func runC02(w *mon.W) {
+	if purityGate(w, c02Purity) {
+		return
+	}
 	maxN := w.Pick(3, 4)
 	idx := 0
 	for n := 1; n <= maxN; n++ {
